@@ -52,6 +52,12 @@ def cases(tier, seed):
         add('(%s)(s).next().next()' % rx, d, ('next',))
         add('( $m := %s(s); [$m.match, $m.start, $m.end, $m.groups, $m.next().match] )' % rx, d, ('next',))
         add('s.$match(%s)' % rx, d, ('ctx',))
+    for ng in (8, 9, 10, 11, 12, 13):
+        pat = ''.join('(%s)' % c for c in 'abcdefghijklm'[:ng])
+        for t in ['$%d' % k for k in range(0, 15)] + ['<$10>', '$1-$10-$2', '$10$1', '$100', '$011', '[$12|$13]']:
+            add('$replace("abcdefghijklmno", /%s/, "%s")' % (pat, t), None, ('many-groups',))
+        add('$match("abcdefghijklmno", /%s/).groups' % pat, None, ('many-groups',))
+    add('$replace("abcdefg acdefg", /((a)(b)?)((c)|(x))(d)(e)(f)(g)/, "[$10$3]")', None, ('many-groups',))
     # literal handling
     for e in ['//', '/(/', '/[a/', '/a/x', '/a\\/b/', '$match("a/b", /a\\/b/)', '$match("AbC", /b/i)', '$match("a\nb", /a.b/s)', '$match("a\nb", /^b/m)', '$match("a\nb", /^b/)',
               '$match("x", /a/)', '$replace("abc", /b/, function($m){5})', '$replace("abc", /b/, "$9999999999")', '$match("abc", /b/, -1)', '$split("abc", /b/, -1)', '$replace("abc", /b/, "x", -1)',
